@@ -64,6 +64,13 @@ func (self SyntaxError) description() string {
 
 func calcBounds(size int, pos int) (lbound int, lwidth int, rbound int, rwidth int) {
 	if pos >= size || pos < 0 {
+		/* no character to point at (typically EOF): show the tail of the source, not all of it */
+		if pos >= size && size > 32 {
+			return size - 32, 0, size, 0
+		}
+		if size > 32 {
+			size = 32
+		}
 		return 0, 0, size, 0
 	}
 
